@@ -46,6 +46,12 @@ func (p *Parser) ParsePackages(ctx context.Context, packageNames []string) ([]*c
 	if err != nil {
 		return nil, err
 	}
+	// A failure of the go tool that concerns the module as a whole (for
+	// example "updates to go.mod needed") is answered with no packages and no
+	// error at all: nothing would be generated and the run would succeed.
+	if len(packageNames) != 0 && len(packages) == 0 {
+		return nil, errors.New("the go tool listed none of the configured packages (try `go list` on them)")
+	}
 	for _, pkg := range packages {
 		pkgLog := log.With().Str("package", pkg.PkgPath).Logger()
 		pkgCtx := pkgLog.WithContext(ctx)
